@@ -19,7 +19,7 @@ ID = "C10"
 LEVEL = "exploration"
 TECHNIQUE = "exhaustive enumeration of terms x dictionaries x cache warmth with the three operations run on the real objects; fault pass per user callable"
 RULE = (
-    "terms = contexts^d x leaves (d<=1 with all warm-ups and faults, d=2 cold + same-dictionary warm-up quick; "
+    "terms = contexts^d x leaves (d<=1 with all warm-ups and faults, d=2 cold quick; "
     "thorough adds all warm-ups at d=2 and d=3 on core contexts); total pass: validate/keys/evaluate succeed or fail "
     "together (dictionaries with an out-of-domain value excluded, as the property conditions on in-domain values); "
     "no dataset body runs during validate/keys unless the reference marks it as needed to choose a branch; fault "
@@ -37,7 +37,7 @@ CORE = [
 
 def cases(tier, seed):
     out = []
-    plan = [(0, None, "all"), (1, None, "all"), (2, None, "same" if tier == "quick" else "all")]
+    plan = [(0, None, "all"), (1, None, "all"), (2, None, "cold" if tier == "quick" else "all")]
     if tier == "thorough":
         plan.append((3, CORE, "same"))
     for depth, ctxs, warm in plan:
